@@ -46,8 +46,9 @@ type oOpaque struct {
 	bounds *oStruct // what Bounds() returns
 }
 type oFunc struct {
-	lit *ast.FuncLit
-	env *oEnv
+	lit  *ast.FuncLit
+	env  *oEnv
+	info *types.Info
 }
 
 const oInf = int64(1) << 40
@@ -151,6 +152,7 @@ const (
 )
 
 type oFrame struct {
+	defers  []func()
 	it      *oInterp
 	info    *types.Info
 	env     *oEnv
@@ -187,6 +189,8 @@ func (it *oInterp) zero(t types.Type) oval {
 		return oIface{}
 	case *types.Slice:
 		return oSlice{typ: t}
+	case *types.Signature:
+		return oNil{}
 	}
 	return oTop{"zero of " + t.String()}
 }
@@ -221,6 +225,10 @@ func (it *oInterp) Call(fn *types.Func, recv oval, args []oval, depth int) ([]ov
 		}
 	}
 	ctl := fr.block(fd.Body.List)
+	fr.runDefers()
+	if strings.HasPrefix(fr.why, "panic:") {
+		return nil, fr.why
+	}
 	switch ctl {
 	case oAbort:
 		return nil, fr.why
@@ -392,6 +400,23 @@ func (fr *oFrame) stmt(s ast.Stmt) oCtl {
 				}
 			}
 		}
+	case *ast.DeferStmt:
+		call := s.Call
+		fv := fr.eval(call.Fun)
+		fn, ok := fv.(oFunc)
+		if !ok {
+			return fr.abort("defer of %s at %s", showVal(fv), fr.it.p.Position(s.Pos()))
+		}
+		var args []oval
+		for _, a := range call.Args {
+			args = append(args, fr.rvalue(fr.eval(a)))
+		}
+		fr.defers = append(fr.defers, func() {
+			if _, why := fr.it.CallFunc(fn, args); why != "" && fr.why == "" {
+				fr.why = why
+			}
+		})
+		return oNormal
 	case *ast.TypeSwitchStmt:
 		return fr.typeSwitch(s)
 	case *ast.SwitchStmt:
@@ -631,6 +656,14 @@ func oEqual(a, b oval) (eq bool, ok bool) {
 		case oNil:
 			return x.s == nil, true
 		}
+	case oHostFunc:
+		if _, ok := b.(oNil); ok {
+			return false, true
+		}
+	case oFunc:
+		if _, ok := b.(oNil); ok {
+			return false, true
+		}
 	case oSlice:
 		if _, ok := b.(oNil); ok {
 			return x.isNil(), true
@@ -639,6 +672,8 @@ func oEqual(a, b oval) (eq bool, ok bool) {
 		switch y := b.(type) {
 		case oSlice:
 			return y.isNil(), true
+		case oHostFunc, oFunc:
+			return false, true
 		case oPtr:
 			return y.s == nil, true
 		case oNil:
@@ -875,7 +910,7 @@ func (fr *oFrame) eval(e ast.Expr) oval {
 		}
 		return oTop{"failing single-result assertion"}
 	case *ast.FuncLit:
-		return oFunc{lit: x, env: fr.env}
+		return oFunc{lit: x, env: fr.env, info: fr.info}
 	case *ast.IndexExpr:
 		return fr.indexExpr(x)
 	case *ast.SliceExpr:
@@ -919,8 +954,12 @@ func (fr *oFrame) call(call *ast.CallExpr) []oval {
 					if fr.depth > fr.it.maxDepth+4 {
 						return one(oTop{"closure call depth"})
 					}
-					sub := &oFrame{it: fr.it, info: fr.info, env: &oEnv{vars: map[types.Object]*oval{}, parent: fn.env}, depth: fr.depth + 1}
-					ps := paramVars(fr.info, fn.lit.Type)
+					finfo := fn.info
+					if finfo == nil {
+						finfo = fr.info
+					}
+					sub := &oFrame{it: fr.it, info: finfo, env: &oEnv{vars: map[types.Object]*oval{}, parent: fn.env}, depth: fr.depth + 1}
+					ps := paramVars(finfo, fn.lit.Type)
 					if len(ps) != len(call.Args) {
 						return one(oTop{"closure arity"})
 					}
@@ -930,7 +969,7 @@ func (fr *oFrame) call(call *ast.CallExpr) []oval {
 							sub.env.define(pv, fr.rvalue(v))
 						}
 					}
-					sub.resVars = resultVars(fr.info, fn.lit.Type)
+					sub.resVars = resultVars(finfo, fn.lit.Type)
 					for _, rv := range sub.resVars {
 						if rv != nil {
 							sub.env.define(rv, fr.it.zero(rv.Type()))
@@ -940,7 +979,11 @@ func (fr *oFrame) call(call *ast.CallExpr) []oval {
 						sub.resVars = make([]*types.Var, 1)
 					}
 					ctl := sub.block(fn.lit.Body.List)
-					if ctl == oAbort {
+					sub.runDefers()
+					if ctl == oAbort || strings.HasPrefix(sub.why, "panic:") {
+						if strings.HasPrefix(sub.why, "panic:") && fr.why == "" {
+							fr.why = sub.why // a run-time panic unwinds through the caller
+						}
 						return one(oTop{sub.why})
 					}
 					return sub.results
@@ -950,6 +993,13 @@ func (fr *oFrame) call(call *ast.CallExpr) []oval {
 	}
 	f := callee(fr.info, call)
 	if f == nil {
+		if hf, ok := fr.eval(call.Fun).(oHostFunc); ok {
+			var args []oval
+			for _, a := range call.Args {
+				args = append(args, fr.eval(a))
+			}
+			return hf.fn(args)
+		}
 		return one(oTop{"dynamic call " + src(call.Fun)})
 	}
 	if f.Pkg() != nil && f.Pkg().Path() == "math" {
@@ -1109,6 +1159,9 @@ func (fr *oFrame) call(call *ast.CallExpr) []oval {
 				return []oval{v}
 			}
 		}
+	}
+	if strings.HasPrefix(why, "panic:") && fr.why == "" {
+		fr.why = why // a run-time panic unwinds through the caller
 	}
 	if why != "" {
 		n := sig.Results().Len()
@@ -1379,4 +1432,43 @@ func (fr *oFrame) typeSwitch(s *ast.TypeSwitchStmt) oCtl {
 		return run(deflt, iv)
 	}
 	return oNormal
+}
+
+// CallFunc invokes a closure value obtained from an interpreted call.
+func (it *oInterp) CallFunc(fn oFunc, args []oval) ([]oval, string) {
+	sub := &oFrame{it: it, info: fn.info, env: &oEnv{vars: map[types.Object]*oval{}, parent: fn.env}, depth: 1}
+	ps := paramVars(fn.info, fn.lit.Type)
+	if len(ps) != len(args) {
+		return nil, "closure arity"
+	}
+	for i, pv := range ps {
+		if pv != nil {
+			sub.env.define(pv, args[i])
+		}
+	}
+	sub.resVars = resultVars(fn.info, fn.lit.Type)
+	for _, rv := range sub.resVars {
+		if rv != nil {
+			sub.env.define(rv, it.zero(rv.Type()))
+		}
+	}
+	if len(sub.resVars) == 0 {
+		sub.resVars = make([]*types.Var, 1)
+	}
+	ctl := sub.block(fn.lit.Body.List)
+	sub.runDefers()
+	if ctl == oAbort || strings.HasPrefix(sub.why, "panic:") {
+		return nil, sub.why
+	}
+	return sub.results, ""
+}
+
+// runDefers runs the deferred closures of a frame in reverse order (results were already
+// captured by the return statement; named results are not re-read: deferred functions in the
+// fragment only update captured counters).
+func (fr *oFrame) runDefers() {
+	for i := len(fr.defers) - 1; i >= 0; i-- {
+		fr.defers[i]()
+	}
+	fr.defers = nil
 }
